@@ -842,15 +842,18 @@ func createAssociationFromConfigWithTsn(cfg *Config, tsn uint32) *Association {
 		handshakeCompletedCh:    make(chan error),
 		cumulativeTSNAckPoint:   tsn - 1,
 		advancedPeerTSNAckPoint: tsn - 1,
-		recvZeroChecksum:        cfg.EnableZeroChecksum,
-		localInterleaving:       cfg.enableInterleaving,
-		silentError:             ErrSilentlyDiscard,
-		stats:                   &associationStats{},
-		log:                     cfg.LoggerFactory.NewLogger("sctp"),
-		name:                    cfg.Name,
-		blockWrite:              cfg.BlockWrite,
-		writeNotify:             make(chan struct{}, 1),
-		abortSentCh:             make(chan struct{}),
+		// reordering detection compares delivered TSNs with this high-water mark in
+		// serial arithmetic: it has to start just below the first TSN, not at 0
+		rackHighestDeliveredOrigTSN: tsn - 1,
+		recvZeroChecksum:            cfg.EnableZeroChecksum,
+		localInterleaving:           cfg.enableInterleaving,
+		silentError:                 ErrSilentlyDiscard,
+		stats:                       &associationStats{},
+		log:                         cfg.LoggerFactory.NewLogger("sctp"),
+		name:                        cfg.Name,
+		blockWrite:                  cfg.BlockWrite,
+		writeNotify:                 make(chan struct{}, 1),
+		abortSentCh:                 make(chan struct{}),
 	}
 
 	// adaptive burst mitigation defaults
